@@ -1478,14 +1478,16 @@ class Vector():
 		Handles: other >> self (where other is not a Vector)
 		Creates a table with other as first column(s) and self as additional column(s)
 		"""
+		# (a table on the right contributes its columns, as in Vector >> table - not itself as one column)
+		rest = self.cols() if self.ndims() == 2 else (self,)
 		# Convert other to Vector and combine column-wise
 		if isinstance(other, Iterable) and not isinstance(other, (str, bytes, bytearray)):
-			return Vector((Vector(tuple(other)), self),
+			return Vector((Vector(tuple(other)),) + rest,
 				None,
 				None,
 				False)
 		# Scalar case: create a single-element vector for other
-		return Vector((Vector((other,)), self),
+		return Vector((Vector((other,)),) + rest,
 			None,
 			None,
 			False)
